@@ -542,6 +542,7 @@ pub async fn run_async(plan: &PlanA, opts: &ExecOpts) -> RunResult {
                 res.probe("C12.request_with_split_options");
             }
             let bytes = msg.encode();
+            own_codec_roundtrip(&mut res, &bytes, *si);
             let src: SocketAddr = if let Some(g) = m.giaddr {
                 SocketAddr::new(IpAddr::V4(g), 67)
             } else {
@@ -556,8 +557,9 @@ pub async fn run_async(plan: &PlanA, opts: &ExecOpts) -> RunResult {
             };
             sent.push(Sent { step: *si, spec: (*m).clone(), msg, identity: c.identity(m.with_client_id), requested, sid });
         }
-        for (_si, lan, data) in &raw_steps {
+        for (si, lan, data) in &raw_steps {
             let l = &plan.lans[*lan];
+            own_codec_roundtrip(&mut res, data, *si);
             kernel.inject_udp(SocketAddr::new(IpAddr::V4(Ipv4Addr::BROADCAST), 67), SocketAddr::new(IpAddr::V4(Ipv4Addr::UNSPECIFIED), 68), l.ifidx, data);
             *res.faults.entry("hostile_datagram".into()).or_insert(0) += 1;
         }
@@ -699,13 +701,17 @@ pub async fn run_async(plan: &PlanA, opts: &ExecOpts) -> RunResult {
                 }
             }
             let meant_for_us = pool.is_some() && (mtype == Some(1) || (mtype == Some(3) && s.sid.map(|x| host_ips.contains(&x)).unwrap_or(true)));
-            if sequential && !replied && !crashed && !disk_fault_now && !meant_for_us {
+            /* (a reply that a failing sendmsg swallowed was produced all the same) */
+            if sequential && !replied && !crashed && !disk_fault_now && refused_frames == 0 {
+                if meant_for_us {
+                    res.probe("C13.message_meant_for_this_server_got_no_reply");
+                }
                 if let (Some(b), Some(a)) = (&before, &after) {
                     if b.0 != a.0 {
                         let diff: Vec<&Row> = a.0.iter().filter(|r| !b.0.contains(r)).collect();
                         res.violate(
                             "C13",
-                            &format!("C13.state_changed_without_reply.type{}", mtype.map(|t| t.to_string()).unwrap_or("none".into())),
+                            &format!("C13.state_changed_without_reply.{}type{}", if meant_for_us { "meant_for_this_server." } else { "" }, mtype.map(|t| t.to_string()).unwrap_or("none".into())),
                             format!("message type {:?} (server-id {:?}) got no reply but the lease store changed: new/changed rows {:?}", mtype, s.sid, diff),
                             s.step,
                         );
@@ -735,6 +741,21 @@ pub async fn run_async(plan: &PlanA, opts: &ExecOpts) -> RunResult {
                     res.violate("C12", "C12.payload_does_not_decode", format!("{} -- payload {}", e, hex(&r.frame.payload)), s.step);
                 }
 
+                // ---- C12: erbium's own decoder reads the reply back, and encoding what it read
+                // and decoding that again changes nothing
+                match erbium::dhcp::dhcppkt::parse(&r.frame.payload) {
+                    Err(e) => {
+                        res.violate("C12", "C12.own_decoder_rejects_own_reply", format!("{:?} -- payload {}", e, hex(&r.frame.payload)), s.step);
+                    }
+                    Ok(own) => {
+                        let again = own.serialise();
+                        match erbium::dhcp::dhcppkt::parse(&again) {
+                            Ok(own2) if own2 == own => res.probe("C12.reply_survives_own_decode_encode_decode"),
+                            Ok(_) => res.violate("C12", "C12.reply_changed_by_decode_encode_decode", format!("payload {} re-encoded as {}", hex(&r.frame.payload), hex(&again)), s.step),
+                            Err(e) => res.violate("C12", "C12.reply_changed_by_decode_encode_decode", format!("payload {} re-encoded as {} which does not decode: {:?}", hex(&r.frame.payload), hex(&again), e), s.step),
+                        }
+                    }
+                }
                 // ---- C12: the frame and the payload as a conforming client reads them
                 if r.ifidx != lan.ifidx {
                     res.violate("C12", "C12.reply_on_wrong_interface", format!("request arrived on if#{} reply left on if#{}", lan.ifidx, r.ifidx), s.step);
@@ -1354,6 +1375,35 @@ fn run_once(plan: &PlanA, opts: &ExecOpts) -> RunResult {
     let r = rt.block_on(run_async(plan, opts));
     drop(rt);
     r
+}
+
+/// C12, first sentence, on every message a simulated client sends: if erbium's decoder accepts
+/// the octets as m, then encoding m and decoding the result gives m again.
+fn own_codec_roundtrip(res: &mut RunResult, bytes: &[u8], step: usize) {
+    use erbium::dhcp::dhcppkt::parse;
+    let before = crate::common::PANICS.lock().map(|p| p.len()).unwrap_or(0);
+    let r = std::panic::catch_unwind(|| match parse(bytes) {
+        Err(_) => None,
+        Ok(m) => {
+            let again = m.serialise();
+            Some(match parse(&again) {
+                Ok(m2) if m2 == m => Ok(()),
+                Ok(_) => Err(format!("message {} is accepted, re-encoded as {}, and that decodes to a different message", hex(bytes), hex(&again))),
+                Err(e) => Err(format!("message {} is accepted, re-encoded as {}, and that does not decode: {:?}", hex(bytes), hex(&again), e)),
+            })
+        }
+    });
+    match r {
+        Ok(None) => res.probe("C12.client_message_refused_by_decoder"),
+        Ok(Some(Ok(()))) => res.probe("C12.client_message_survives_encode_decode"),
+        Ok(Some(Err(e))) => res.violate("C12", "C12.accepted_message_changed_by_encode_decode", e, step),
+        Err(_) => {
+            /* the panic belongs to this oracle's call into the codec, not to the running server */
+            let mine: Vec<(String, String)> = crate::common::PANICS.lock().map(|mut p| { let at = before.min(p.len()); p.split_off(at) }).unwrap_or_default();
+            let (loc, msg) = mine.first().cloned().unwrap_or_default();
+            res.violate("C12", &format!("C12.codec_panic_on_accepted_message@{}", loc), format!("decoding {} and encoding the result panics: {}", hex(bytes), msg), step);
+        }
+    }
 }
 
 pub fn run_plan(plan: &PlanA, opts: &ExecOpts) -> RunResult {
